@@ -389,6 +389,13 @@ func (db *SingleBucketBackend) PutObject(
 		}
 	}
 
+	// Unlink the previous object instead of truncating it in place: a GET that is
+	// still streaming it (the lock is not held while a response is sent) keeps
+	// reading its own, now unlinked, file rather than a mixture of old and new.
+	if err := db.fs.Remove(objectFilePath); err != nil && !noSuchFile(err) {
+		return result, err
+	}
+
 	f, err := db.fs.Create(objectFilePath)
 	if err != nil {
 		return result, err
